@@ -13,11 +13,15 @@ Definition zero_word : word := [0; 0; 0; 0].      (* np.zeros(.., dtype=np.float
 Definition size (shape : list Z) : Z := fold_right Z.mul 1 shape.   (* vec.size *)
 Definition ndim (shape : list Z) : Z := Z.of_nat (length shape).
 
-(* ---- sorting into point data and cell data: `vec.size % nel == 0` is asked first ---- *)
+(* ---- sorting into point data and cell data (repaired code, /repo b871b84):
+        sizes = vec.shape if vec.ndim == 2 else (vec.size,)
+        if any(s % self.nel == 0 for s in sizes): cell  elif any(s % self.nnodes == 0 for s in sizes): point
+   block vectors are sorted by the length of their axes, everything else by the total size; cell is asked first ---- *)
 Inductive kind := Cell | Point | Skip.
+Definition class_sizes (shape : list Z) : list Z := if ndim shape =? 2 then shape else [size shape].
 Definition classify (g : grid) (shape : list Z) : kind :=
-  if size shape mod nel g =? 0 then Cell
-  else if size shape mod nnodes g =? 0 then Point
+  if existsb (fun s => s mod nel g =? 0) (class_sizes shape) then Cell
+  else if existsb (fun s => s mod nnodes g =? 0) (class_sizes shape) then Point
   else Skip.
 
 (* vecax = next((i for i, s in enumerate(vec.shape) if s % n == 0), None) *)
@@ -88,8 +92,7 @@ Definition entry_arrays (point dim2 : bool) (n : Z) (key : str) (shape : list Z)
                                  (if ax =? 0 then block_col cols i ws else block_row cols i ws))
               (zrange nvec))
     else if nvec <? 1 then Ok []                            (* for i in range(nvectors): no iteration *)
-    else if padv && (ndim shape =? 2) then Err ValueError   (* a 2-D slice cannot be broadcast into vec_pad[0::3] *)
-    else Ok [mk_array point padv n ncomp key ws]
+    else Ok [mk_array point padv n ncomp key ws]            (* the whole array, flattened (repaired code, /repo 0eca39b) *)
   end.
 
 (* sequencing of results in program order: the first error wins *)
